@@ -19,8 +19,8 @@ import (
 var (
 	onlyBatch string
 	verifDir  string // /verif
-	workDir  string // scratch cwd for workers
-	binDir   string
+	workDir   string // scratch cwd for workers
+	binDir    string
 )
 
 // Batch is one homogeneous set of runs of one engine.
